@@ -1,0 +1,82 @@
+//go:build verif
+
+package tar
+
+// Contracts for govc, the contract verifier under /verif (see /verif/DESIGN.md).
+// This file contains comments only; it adds no code under any build tag.
+//
+// The unpacking pipeline runs in goroutines; only its sequential building blocks are under contract: name
+// normalisation, the per-file write (which decides when an entry becomes visible), the read adaptor and Open.
+
+// ---- name normalisation ----
+//@ lemma cleanRooted(p string) := VP(trimPrefix(pclean(p), "/")) || trimPrefix(pclean(p), "/") == "" || trimPrefix(pclean(p), "/") == ".." || hasPrefix(trimPrefix(pclean(p), "/"), "../")
+
+//@ func resolvePath(p string) (r string)
+//@   props C12 C04
+//@   use cleanRooted(p)
+//@   ensures "normal-form" r == ite(trimPrefix(pclean(p), "/") == "", ".", trimPrefix(pclean(p), "/"))
+//@   ensures "valid-or-escaping" [C12 C04] VP(r) || r == ".." || hasPrefix(r, "../")
+//@   pure
+//@   nopanic
+
+// ---- visibility of entries: an entry is announced (Emit) only after its bytes were written completely ----
+//@ spec kid(key string) := uf("tarkey", key)
+//@ spec announced(key string) := gint("emitted", kid(key)) == 1
+
+//@ func (ps *pubsub) Emit(key string)
+//@   assumed
+//@   requires ps != nil
+//@   modifies gint("emitted", kid(key))
+//@   ensures "announced" announced(key)
+//@ func (ps *pubsub) Wait(key string)
+//@   assumed
+//@   requires ps != nil
+
+// (io.CopyBuffer: extern contract in cache/contracts_verif.go)
+//@ extern io.ReadFull(r io.Reader, buf []byte) (n int, err error)
+//@   deterministic
+//@   detargs r
+//@   modifies elems(buf)
+//@   ensures "count" 0 <= n && n <= len(buf)
+
+//@ extern interface io.Writer.Write(p []byte) (n int, err error)
+//@   deterministic
+//@   detargs self
+
+//@ spec wfMode(info hackpadfs.FileInfo) := ret("hackpadfs.(FileInfo).Mode", 0, info)
+//@ spec wfFlags() := hackpadfs.FlagWriteOnly | hackpadfs.FlagCreate | hackpadfs.FlagTruncate
+//@ spec wfDest(fs *ReaderFS, path string, info hackpadfs.FileInfo) := ret("hackpadfs.(OpenFileFS).OpenFile", 0, hackpadfs.OpenFileFS(fs.unarchiveFS), path, wfFlags(), wfMode(info))
+//@ spec wfOpenErr(fs *ReaderFS, path string, info hackpadfs.FileInfo) := ret("hackpadfs.(OpenFileFS).OpenFile", 1, hackpadfs.OpenFileFS(fs.unarchiveFS), path, wfFlags(), wfMode(info))
+//@ spec wfW1(fs *ReaderFS, path string, info hackpadfs.FileInfo) := worldAfter("hackpadfs.(OpenFileFS).OpenFile", hackpadfs.OpenFileFS(fs.unarchiveFS), path, wfFlags(), wfMode(info))
+//@ spec wfWriteErr(fs *ReaderFS, path string, info hackpadfs.FileInfo) := retW("io.(Writer).Write", 1, wfW1(fs, path, info), io.Writer(wfDest(fs, path, info)), nil)
+//@ spec wfW2(fs *ReaderFS, path string, info hackpadfs.FileInfo) := worldAfterW("io.(Writer).Write", wfW1(fs, path, info), io.Writer(wfDest(fs, path, info)), nil)
+//@ spec wfCopyErr(fs *ReaderFS, path string, info hackpadfs.FileInfo, r io.Reader) := retW("io.CopyBuffer", 1, wfW2(fs, path, info), io.Writer(wfDest(fs, path, info)), r, nil)
+//@ spec wfW3(fs *ReaderFS, path string, info hackpadfs.FileInfo, r io.Reader) := ite(r == nil, wfW2(fs, path, info), worldAfterW("io.CopyBuffer", wfW2(fs, path, info), io.Writer(wfDest(fs, path, info)), r, nil))
+//@ spec wfCloseErr(fs *ReaderFS, path string, info hackpadfs.FileInfo, r io.Reader) := retW("hackpadfs.(File).Close", 0, wfW3(fs, path, info, r), wfDest(fs, path, info))
+//@ spec wfComplete(fs *ReaderFS, path string, info hackpadfs.FileInfo, r io.Reader) := wfOpenErr(fs, path, info) == nil && implements(wfDest(fs, path, info), io.Writer) &&
+//@        wfWriteErr(fs, path, info) == nil && (r == nil || wfCopyErr(fs, path, info, r) == nil) && wfCloseErr(fs, path, info, r) == nil
+
+//@ func (fs *ReaderFS) writeFile(path string, info hackpadfs.FileInfo, initialBuf *buffer, n int, r io.Reader, copyBuf *buffer) (returnedErr error)
+//@   props C12 C14
+//@   requires fs != nil && fs.unarchiveFS != nil && fs.ps != nil && info != nil && initialBuf != nil && 0 <= n && n <= len(initialBuf.Data) && (r == nil || copyBuf != nil)
+//@   modifies world(), gint("emitted", kid(path))
+//@   ensures "complete-or-error" [C12] iff(returnedErr == nil, old(wfComplete(fs, path, info, r)))
+//@   ensures "announced-only-if-complete" [C12] implies(announced(path) && !old(announced(path)), old(wfComplete(fs, path, info, r)))
+//@   ensures "announced-when-complete" [C12] implies(old(wfComplete(fs, path, info, r)), announced(path))
+//@   nopanic
+
+//@ func (f fullReader) Read(p []byte) (n int, err error)
+//@   props C12
+//@   requires f.Reader != nil
+//@   modifies world(), elems(p)
+//@   ensures "full" n == old(ret("io.ReadFull", 0, f.Reader, p)) && 0 <= n && n <= len(p)
+//@   ensures "eof" iff(err == io.EOF, old(ret("io.ReadFull", 1, f.Reader, p)) == io.EOF || old(ret("io.ReadFull", 1, f.Reader, p)) == io.ErrUnexpectedEOF)
+//@   nopanic
+
+// ---- Open ----
+//@ func (fs *ReaderFS) Open(name string) (f hackpadfs.File, err error)
+//@   props C12 C04 C05
+//@   requires fs != nil && fs.unarchiveFS != nil && fs.ps != nil
+//@   modifies world()
+//@   ensures "gate" [C04 C05] implies(!VP(name), f == nil && isPathError(err) && pathOf(err) == name && errIs(err, hackpadfs.ErrInvalid) && world() == old(world()))
+//@   nopanic
